@@ -98,15 +98,32 @@ def gen_pbt_case(rng, tier):
 def gen_gp_case(rng, tier):
     finite = rng.random() < 0.6
     space = S.gen_space(rng, finite=finite, small=finite, consts=True)
+    sched = rng.choice(["fifo", "fifo", "hb-stopping", "hb-promotion"])
     return {"scenario": "gp", "space": space, "seed": rng.randrange(10 ** 9),
-            "sched": rng.choice(["fifo", "fifo", "hb-stopping", "hb-promotion"]),
+            "sched": sched,
             "n_suggest": 10 if tier == "quick" else 16, "num_init_random": rng.choice([2, 3]),
             "num_init_candidates": rng.choice([4, 12]), "p2e": None, "p_fail": rng.choice([0, 0.15]),
-            "allow_duplicates": False}
+            "p_nan": rng.choice([0, 0, 0.2]) if sched == "fifo" else 0, "allow_duplicates": False}
+
+
+def gen_gp_exhaust_case(rng, tier):
+    """single-fidelity BO on a small finite space driven until nothing is left, with diverged (NaN / inf) and failed
+    trials in between: a configuration the searcher forgets is certain to come back before 'None'"""
+    from syne_tune.config_space import config_space_size
+    while True:
+        space = S.gen_space(rng, finite=True, small=True)
+        n = config_space_size(S.build_space(space))
+        if n is not None and 4 <= n <= 18:
+            break
+    return {"scenario": "gp", "space": space, "seed": rng.randrange(10 ** 9), "sched": "fifo",
+            "n_suggest": n + 4, "num_init_random": 2, "num_init_candidates": 6, "p2e": None,
+            "p_fail": rng.choice([0, 0.1]), "p_nan": rng.choice([0.15, 0.3]), "allow_duplicates": False}
 
 
 def gen_cases(rng, tier):
     n_s, n_p, n_g = (260, 40, 24) if tier == "quick" else (3000, 400, 160)
+    for _ in range(n_g // 2):
+        yield gen_gp_exhaust_case(rng, tier)
     for _ in range(n_s):
         yield gen_searcher_case(rng, tier)
     for _ in range(n_p):
